@@ -494,7 +494,7 @@ MORE = {
     'C19': 'Value 0; delete + insert under the same prefix and clear + insert '
            'from every state.',
     'C20': 'The demo allocator\'s next random draw is an operation (aimed at '
-           'issued / stored ids), stores that are aborted; committers of an '
+           'issued / stored ids), stores that are aborted or whose finish fails; committers of an '
            'explicit id just above the mark and of an issued id that the '
            'random source keeps drawing.',
 }
